@@ -21,4 +21,4 @@ For each mutation i = 1..{k}:
  3. Write a demonstration `{wt}/_mut/<i>/demo.py`: a standalone script (run as `cd {wt} && /venv/bin/python _mut/<i>/demo.py`) that exercises the real code (no docker/ssh/network; use the local connector, fakes/mocks for connectors, in-memory sqlite, asyncio, tmp dirs) and exits 0 when the property holds and exits 1 (printing what went wrong) when it is violated. It MUST exit 0 on the clean tree and exit 1 with your mutation applied. Verify both yourself.
  4. Verify the stable tests still pass WITH the mutation applied: `/venv/bin/python /opt/sfhelp/run_stable.py {wt}` (takes 1-3 minutes; it runs the 171 stable tests file by file with an isolated HOME because the plain pytest command is flaky and sometimes hangs on this shared machine; do not run the whole suite with a bare pytest command). It prints the stable tests that did not pass and exits 0 when all 171 pass. If a stable test fails because of your mutation, choose another mutation. (Run it once on the clean tree first if you want a reference; a test reported missing on the clean tree too is load-related flakiness: re-run.)
  5. Write `{wt}/_mut/<i>/meta.json`: {{"property": "{pid}", "title": <short name>, "files": [...], "what_breaks": <one paragraph>, "needs_to_manifest": <the specific input/interleaving/fault/sequence>, "demo_clean_exit": 0, "demo_mutated_exit": 1, "tests": <the tail of the pytest output with the mutation>}}.
-Finish with the tree clean again (`git checkout -- .`), leaving only the `_mut` directory. Do not commit anything. In your final answer list, per mutation, the file/function changed, a one-line description, and the verified exit codes. If you cannot find {k}, deliver as many as you verified.""")
+IMPORTANT: never use `git stash` (the stash is shared by all worktrees of this repository and other testers work concurrently): save your change with `git diff > file`, restore with `git checkout -- .`, re-apply with `git apply file`. Finish with the tree clean again (`git checkout -- .`), leaving only the `_mut` directory. Do not commit anything. In your final answer list, per mutation, the file/function changed, a one-line description, and the verified exit codes. If you cannot find {k}, deliver as many as you verified.""")
